@@ -221,7 +221,7 @@ func TestC17(t *testing.T) {
 	evid.Main(t, "C17", func(rec *evid.Rec) {
 		rec.Rule("positions from suite/bench/synthetic (incl. promoted material) / motif roots and playouts, plus bare-king, insufficient-material and K+N+B v K classes of both colours; metamorphic relations with exact integer equality: Eval(b) == Eval(mirror(b)) (mirror built on the reference position: ranks flipped, colours, side, rights and en-passant mapped); Eval unchanged when rights / en-passant target / fullmove number / hash history differ (FEN-loaded vs reached by moves vs ParseFEN board); unchanged by intervening evaluations and by make+undo; UCI `eval` prints the same number. Non-trivial = position differs from its mirror and evaluates non-zero; distinct by placement+side+rights+ep+clock")
 		rec.Assume("the mirror transformation is computed by the harness on verif/refchess positions")
-		rec.Rapid(t, "relations", evid.Pick(100000, 2000000), func(t *rapid.T) {
+		rec.Rapid(t, "relations", evid.Pick(100000, 15000000), func(t *rapid.T) {
 			var c Case
 			if gen.Chance(t, 1, 6, "minor") {
 				mp := minor(t)
@@ -244,7 +244,7 @@ func TestC17(t *testing.T) {
 				t.Fatalf("%v", err)
 			}
 		})
-		rec.Rapid(t, "uci", evid.Pick(5000, 50000), func(t *rapid.T) {
+		rec.Rapid(t, "uci", evid.Pick(5000, 200000), func(t *rapid.T) {
 			root, _ := gen.Root(t)
 			end := gen.Playout(t, root, 10, nil)
 			c := Case{FEN: end.FEN(), UCI: true}
